@@ -10,7 +10,7 @@ import glob
 import os
 import shutil
 
-from .core import log, sh, Infra
+from .core import log, sh, Infra, Crash, classify_crash
 
 SPEC = "C10_fft"
 SMALL = "koalabear,babybear"
@@ -66,6 +66,13 @@ def run(ctx):
             args = ["c10", "-out", tdir, "-seed", str(ctx.seed), "-tier", ctx.tier, "-config", name] + extra
             p = sh(wrap + [bins[b]] + args, env=env, timeout=3000, check=False)
             if p.returncode != 0:
+                msg = classify_crash(p.stdout or "")
+                if msg:     # the driver died inside gnark-crypto code (panic / fault): a behaviour of the code under test
+                    ctx.crash_violation(Crash(msg, p.stdout), "configuration " + name)
+                    # what was written before the crash is not validated: the file of this configuration is incomplete
+                    for f in glob.glob(os.path.join(tdir, "c10_*_%s_*.ndjson" % name)) + glob.glob(os.path.join(tdir, "c10_*_%s.ndjson" % name)):
+                        os.remove(f)
+                    return name, "crashed inside the library: " + msg
                 raise Infra("harness %s failed (%d):\n%s" % (" ".join(args), p.returncode, p.stdout[-4000:]))
             return name, p.stdout.strip().splitlines()[-1]
 
